@@ -415,5 +415,13 @@ func skipBombs() []bomb {
 		out = append(out, bomb{fmt.Sprintf("LIST announcing %d elements followed by one element", cnt), append(append([]byte{0x09}, i32(cnt)...), 0x00, 0x01)})
 		out = append(out, bomb{fmt.Sprintf("MAP announcing %d entries followed by one entry", cnt), append(append([]byte{0x08}, i32(cnt)...), 0x00, 0x01, 0x10, 0x02)})
 	}
+	// negative announced lengths / counts in skip position: skipping must neither move backwards nor iterate
+	for _, neg := range [][]byte{{0x00, 0xfc}, {0x00, 0xff}, {0x00, 0x80}, {0x01, 0xff, 0xfc}, {0x01, 0x80, 0x00}, {0x02, 0xff, 0xff, 0xff, 0xfb}, {0x02, 0x80, 0x00, 0x00, 0x00}} {
+		out = append(out, bomb{fmt.Sprintf("SimpleList announcing the negative length % x", neg), append([]byte{0x0d, 0x00}, neg...)})
+		out = append(out, bomb{fmt.Sprintf("ext-tag SimpleList announcing the negative length % x", neg), append([]byte{0xfd, 200, 0x00}, neg...)})
+		out = append(out, bomb{fmt.Sprintf("LIST announcing the negative count % x", neg), append([]byte{0x09}, neg...)})
+		out = append(out, bomb{fmt.Sprintf("MAP announcing the negative count % x", neg), append([]byte{0x08}, neg...)})
+		out = append(out, bomb{fmt.Sprintf("SimpleList negative length % x followed by a field", neg), append(append([]byte{0x0d, 0x00}, neg...), 0x10, 0x01)})
+	}
 	return out
 }
